@@ -22,6 +22,8 @@ pub const CHARS: &[(i64, char)] = &[
     (33, '\u{2003}'), // em space (whitespace, 3 bytes)
     (14, '😀'),
     (24, '𝄞'),
+    (91, 'i'),
+    (52, '\u{307}'), // combining dot above: second codepoint of lower-cased U+0130
 ];
 
 pub fn char_of(code: i64) -> char {
